@@ -12,8 +12,10 @@ EXTENDS Engine, KnownDeviations, Json, IOUtils
 Rec == ndJsonDeserialize(IOEnv.TRACE)
 MaxBad == 400      \* per mismatch kind (what), so that many mismatches of one kind cannot crowd out another kind
 
-VARIABLES st, l, bad, cnt, synced
-vars == <<st, l, bad, cnt, synced>>
+VARIABLES st, l, bad, cnt, synced, po
+vars == <<st, l, bad, cnt, synced, po>>
+\* po = the projection observed after the previous event (what a reload must reproduce beyond the modelled state:
+\* column types and nullability)
 \* cnt = [ok, known, unmodelled, skipped, queries]
 
 OutClass(o) == IF o = "ok" THEN "ok" ELSE IF o \in {"err", "parse", "denied"} THEN "err" ELSE o
@@ -58,7 +60,7 @@ HashIndexOk(s, o) == \A t \in DOMAIN s.tabs : (t \in DOMAIN o.hx /\ t \in DOMAIN
      /\ \A u \in 1..Len(s.tabs[t].uqs) : ObsHash(o.hx[t].uq[u]) = ExpHash(o, t, s.tabs[t].uqs[u])
 IndexInv(s, o) == ("ic" \in DOMAIN o) => (UserIndexOk(o) /\ HashIndexOk(s, o))
 
-Init == st = InitSt /\ l = 1 /\ bad = <<>> /\ synced = TRUE
+Init == st = InitSt /\ l = 1 /\ bad = <<>> /\ synced = TRUE /\ po = [x \in {} |-> 0]
         /\ cnt = [ok |-> 0, known |-> 0, unmodelled |-> 0, skipped |-> 0, queries |-> 0]
 
 NBad(what) == Cardinality({ i \in 1..Len(bad) : bad[i].what = what })
@@ -72,8 +74,14 @@ Step(e) ==
   ELSE
   LET exp0 == Apply(st, e.a)
       \* where the specification also allows the statement to be rejected, follow the implementation's choice
-      exp == IF exp0.alt = "err" /\ OutClass(e.out) = "err" THEN Fail(st)
-             ELSE IF exp0.alt = "ok" /\ e.out = "ok" THEN Ok(st, 0) ELSE exp0
+      exp1 == IF exp0.alt = "err" /\ OutClass(e.out) = "err" THEN Fail(st)
+              ELSE IF exp0.alt = "ok" /\ e.out = "ok" THEN Ok(st, 0) ELSE exp0
+      \* a SQL dump promises tables, columns and rows (C19); which index definitions it carries is left open, so the
+      \* index registry observed after reloading a dump is taken over
+      ObsIdx(ob) == [n \in { ob.ix[k].n : k \in 1..Len(ob.ix) } |->
+                       LET k == CHOOSE k \in 1..Len(ob.ix) : ob.ix[k].n = n IN [t |-> ob.ix[k].t, cols |-> ob.ix[k].cols, uq |-> ob.ix[k].uq]]
+      exp == IF e.a.a = "saveload" /\ e.a.fmt = "sql" /\ exp1.out = "ok" /\ e.out = "ok"
+             THEN [exp1 EXCEPT !.st.idx = ObsIdx(e.st)] ELSE exp1
       o   == e.st
   IN IF e.out = "panic" THEN
         /\ bad' = IF NBad("panic") < MaxBad THEN Append(bad, BadRec(e, "panic", exp.out, "", <<>>)) ELSE bad
@@ -92,8 +100,10 @@ Step(e) ==
          rptOk   == ~isQ \/ ("rows2" \notin DOMAIN e) \/ (e.out2 = e.out /\ AcceptRes(e.a.q, EvalQ(e.a.q, DbOf(st), <<>>), e.rows2))
          cntOk   == ~(e.a.a \in {"del", "upd", "ins", "inssel"} /\ exp.out = "ok" /\ outOk) \/ e.cnt = exp.cnt
          idxOk   == ~(outOk /\ stOk) \/ IndexInv(exp.st, o)
+         \* a reload reproduces column types and nullability exactly as they were observed before it
+         typOk   == ~(e.a.a = "saveload" /\ outOk /\ exp.out = "ok") \/ ("CT" \notin DOMAIN o) \/ ("CT" \notin DOMAIN po) \/ o.CT = po.CT
          what    == IF ~outOk THEN "out" ELSE IF ~stOk THEN "state" ELSE IF ~rowsOk THEN "rows" ELSE IF ~rptOk THEN "repeat"
-                    ELSE IF ~cntOk THEN "cnt" ELSE IF ~idxOk THEN "index" ELSE ""
+                    ELSE IF ~cntOk THEN "cnt" ELSE IF ~idxOk THEN "index" ELSE IF ~typOk THEN "types" ELSE ""
          dev     == IF what = "" THEN "" ELSE Deviation(st, e, exp, what)
          base    == IF outOk THEN exp.st ELSE st
          want    == IF what = "rows" THEN EvalQ(e.a.q, DbOf(st), <<>>).rows
@@ -102,12 +112,13 @@ Step(e) ==
         /\ cnt' = [cnt EXCEPT !.ok = IF what = "" THEN @ + 1 ELSE @,
                               !.known = IF what # "" /\ dev # "" THEN @ + 1 ELSE @,
                               !.queries = IF isQ THEN @ + 1 ELSE @]
-        /\ IF what \in {"", "rows", "repeat", "cnt", "index"} THEN st' = exp.st /\ synced' = TRUE
+        /\ IF what \in {"", "rows", "repeat", "cnt", "index", "types"} THEN st' = exp.st /\ synced' = TRUE
            ELSE IF SchemaEq(base, o) /\ base.txn.active = o.txn THEN st' = Adopt(base, o) /\ synced' = TRUE
            ELSE st' = st /\ synced' = FALSE
 
 Next == /\ l <= Len(Rec)
         /\ Step(Rec[l])
+        /\ po' = Rec[l].st
         /\ l' = l + 1
 
 Verdict == [n |-> Len(Rec), nbad |-> Len(bad), cnt |-> cnt, bad |-> bad]
